@@ -41,19 +41,26 @@ class World(object):
     def __init__(self, shared_labels):
         self.n = {}           # app -> number of evolutions defined (= fields added by the models)
         self.shared = shared_labels
+        self.retired = set()  # apps that stay installed but removed all their models (last evolution: DeleteApplication)
 
     def label(self, app, i):
         return ('e%d' % i) if self.shared else ('%s_e%d' % (app[0], i))
 
     def sequence(self, app):
-        return [self.label(app, i) for i in range(1, self.n[app] + 1)]
+        return [self.label(app, i) for i in range(1, self.n[app] + 1)] + \
+            (['%s_retire' % app[0]] if app in self.retired else [])
 
     def install(self):
-        spec = {'apps': [{'id': a, 'models': [model_spec(a, self.n[a])]} for a in sorted(self.n)]}
+        spec = {'apps': [{'id': a, 'models': [] if a in self.retired else [model_spec(a, self.n[a])]}
+                         for a in sorted(self.n)]}
         evorig.install_models(spec)
         for a in evorig.APPS:
             if a in self.n:
-                evorig.set_evolutions(a, [evo(a, i, self.label(a, i)) for i in range(1, self.n[a] + 1)])
+                evs = [evo(a, i, self.label(a, i)) for i in range(1, self.n[a] + 1)]
+                if a in self.retired:
+                    evs.append({'label': '%s_retire' % a[0],
+                                'mutations': [sigs.real_mutation({'t': 'DeleteApplication'})]})
+                evorig.set_evolutions(a, evs)
             else:
                 evorig.set_evolutions(a, [])
 
@@ -97,7 +104,9 @@ def scripted_histories():
             ({'vapp': 2, 'wapp': 0}, ['grow:wapp', 'run', 'grow:wapp', 'run', 'noop']),
             ({'vapp': 1, 'wapp': 1}, ['grow:vapp', 'run', 'grow:wapp', 'run', 'noop']),
             ({'vapp': 2}, ['newapp:0', 'run', 'grow:wapp', 'grow:wapp', 'run', 'grow:wapp', 'subset:wapp', 'noop']),
-            ({'vapp': 0, 'wapp': 2}, ['grow:vapp', 'subset:vapp', 'grow:vapp', 'fail', 'run'])):
+            ({'vapp': 0, 'wapp': 2}, ['grow:vapp', 'subset:vapp', 'grow:vapp', 'fail', 'run']),
+            # an app that retires itself (DeleteApplication in its own sequence, no models left, still installed)
+            ({'vapp': 1, 'wapp': 2}, ['retire:wapp', 'run', 'noop', 'grow:vapp', 'run', 'noop'])):
         w = World(True)
         w.n.update(n0)
         out.append((w, steps))
@@ -148,6 +157,10 @@ def run(ctx):
             if k == 'grow':
                 a = arg or ctx.rng.choice(apps_now)
                 w.n[a] += 1
+                continue
+            if k == 'retire':
+                if arg in w.n and w.n[arg] >= 0:
+                    w.retired.add(arg)
                 continue
             if k == 'newapp':
                 if 'wapp' not in w.n:
